@@ -4,7 +4,7 @@ package main
 // and `desync index-server` processes ($VH_DESYNC) listening on a free loopback port.
 // The handler cannot be wrapped here, so what reaches it is computed with Go's own
 // request parser (http.ReadRequest) and http.ServeMux's path cleaning (a request whose
-// path is not clean is answered 301 by the mux and never reaches the handler).
+// ESCAPED path is not clean is answered 301 by the mux and never reaches the handler).
 
 import (
 	"bufio"
@@ -16,6 +16,7 @@ import (
 	"os/exec"
 	"path"
 	"path/filepath"
+	"strings"
 	"time"
 
 	"vh/internal/vh"
@@ -129,13 +130,22 @@ func c15DoCLI(a vh.Args, o *vh.Oracle, r *vh.Result, e *c15Env, c *c15Case) erro
 	var err error
 	// what reaches the handler
 	req, perr := http.ReadRequest(bufio.NewReader(bytes.NewReader(raw)))
+	// the server's own readRequest is stricter than http.ReadRequest: header field names must be tokens
+	badHeader := false
+	if perr == nil {
+		for k := range req.Header {
+			if !c15IsToken(k) {
+				badHeader = true
+			}
+		}
+	}
 	switch {
-	case perr != nil || (c.Target == "*" && c.Method == "OPTIONS"):
+	case perr != nil || badHeader || (c.Target == "*" && c.Method == "OPTIONS"):
 		r.Dist("nethttp:rejected-before-handler")
 		if len(c.Changed) > 0 {
 			r.Fail("predicate", c.Cfg.Kind+"/effect-without-handler", "directory changed by a request net/http rejects", c)
 		}
-	case req.Method != "CONNECT" && muxCleanPath(req.URL.Path) != req.URL.Path:
+	case req.Method != "CONNECT" && muxCleanPath(req.URL.EscapedPath()) != req.URL.EscapedPath():
 		r.Dist("mux:redirect")
 		r.Corr()
 		if status != 301 && status != 307 && status != 308 && status != 400 {
@@ -159,6 +169,22 @@ func c15DoCLI(a vh.Args, o *vh.Oracle, r *vh.Result, e *c15Env, c *c15Case) erro
 		}
 	}
 	return err
+}
+
+func c15IsToken(s string) bool {
+	if s == "" {
+		return false
+	}
+	for i := 0; i < len(s); i++ {
+		ch := s[i]
+		switch {
+		case ch >= 'a' && ch <= 'z', ch >= 'A' && ch <= 'Z', ch >= '0' && ch <= '9':
+		case strings.IndexByte("!#$%&'*+-.^_`|~", ch) >= 0:
+		default:
+			return false
+		}
+	}
+	return true
 }
 
 func c15CLI(a vh.Args, o *vh.Oracle, r *vh.Result, rng *vh.Rand) error {
